@@ -79,6 +79,7 @@ fn fair_enabled(slots: &[sc::Slot], i: usize) -> bool {
 fn run_one(exec: Execution, prefix: &[usize]) -> (Vec<Step>, RunOutcome, Vec<String>) {
     let n = exec.threads.len();
     let s = sc::install(n);
+    *CUR_SCHED.lock().unwrap() = Some(s.clone());
     let mut handles = vec![];
     for (i, body) in exec.threads.into_iter().enumerate() {
         let h = std::thread::Builder::new()
@@ -207,6 +208,15 @@ fn run_one(exec: Execution, prefix: &[usize]) -> (Vec<Step>, RunOutcome, Vec<Str
 }
 
 static THREAD_PANICS: Mutex<Vec<String>> = Mutex::new(Vec::new());
+static CUR_SCHED: Mutex<Option<Arc<sc::Sched>>> = Mutex::new(None);
+
+/// Whether some controlled thread is currently parked in the middle of a commit (at the
+/// read-transaction wait inside the sync).
+fn someone_mid_commit() -> bool {
+    let Some(s) = CUR_SCHED.lock().unwrap().clone() else { return false };
+    let g = s.m.lock().unwrap();
+    g.slots.iter().any(|x| x.st == sc::St::Parked && x.label == "readtx.zero")
+}
 
 pub struct ExploreResult {
     pub executions: u64,
@@ -339,6 +349,10 @@ struct Ctx {
     errs: Mutex<Vec<String>>,
     session_alive: AtomicBool,
     live_handles: AtomicI64,
+    /// a non-blocking commit call is in progress
+    nb_in_call: AtomicBool,
+    /// a session began (begin_session returned) while a non-blocking commit call was in progress
+    began_during_nb: AtomicBool,
 }
 
 impl Ctx {
@@ -355,6 +369,9 @@ fn reader(c: &Arc<Ctx>, tag: &str, versions: &[u8]) {
     use bitvec::prelude::*;
     let s = c.n.begin_session(SessionParams::default());
     c.session_alive.store(true, Ordering::SeqCst);
+    if someone_mid_commit() {
+        c.err(format!("{tag}: begin_session returned while another thread is in the middle of a commit: reader and writer did not exclude each other"));
+    }
     let a = s.read(ka()).unwrap();
     sp("R.after-read-a");
     let proof = s.prove(ka());
@@ -469,6 +486,8 @@ impl SchedX {
                 errs: Mutex::new(vec![]),
                 session_alive: AtomicBool::new(false),
                 live_handles: AtomicI64::new(0),
+                nb_in_call: AtomicBool::new(false),
+                began_during_nb: AtomicBool::new(false),
             }),
             dir,
         )
@@ -504,7 +523,10 @@ impl SchedX {
                         Box::new(move || reader(&c1, "R", &[0, 1])),
                         Box::new(move || {
                             let alive_before = c2.session_alive.load(Ordering::SeqCst);
-                            match fin.try_commit_nonblocking(&c2.n) {
+                            c2.nb_in_call.store(true, Ordering::SeqCst);
+                            let r = fin.try_commit_nonblocking(&c2.n);
+                            c2.nb_in_call.store(false, Ordering::SeqCst);
+                            match r {
                                 Ok(None) => {
                                     let alive_after = c2.session_alive.load(Ordering::SeqCst);
                                     if alive_before && alive_after {
@@ -760,6 +782,58 @@ impl SchedX {
                     }),
                 }
             }
+            // C20: a holder that drops ∥ two openers (three-party hand-over)
+            "O4" => {
+                let dir = self.fresh();
+                let n = open_nomt::<B3>(&dir, &cfg()).expect("create");
+                commit_kv(&n, &[(ka(), Some(val(0))), (kb(), Some(val(0)))]).unwrap();
+                let live = Arc::new(AtomicI64::new(1));
+                let errs = Arc::new(Mutex::new(Vec::<String>::new()));
+                let obs = Arc::new(Mutex::new(Vec::<String>::new()));
+                let mut threads: Vec<Box<dyn FnOnce() + Send>> = vec![];
+                {
+                    let (live, obs) = (live.clone(), obs.clone());
+                    threads.push(Box::new(move || {
+                        sp("A.holding");
+                        live.fetch_sub(1, Ordering::SeqCst);
+                        drop(n);
+                        obs.lock().unwrap().push("A:dropped".into());
+                    }));
+                }
+                for t in 0..2 {
+                    let (dir, live, errs, obs) = (dir.clone(), live.clone(), errs.clone(), obs.clone());
+                    threads.push(Box::new(move || match open_nomt::<B3>(&dir, &cfg()) {
+                        Ok(n) => {
+                            let l = live.fetch_add(1, Ordering::SeqCst) + 1;
+                            if l > 1 {
+                                errs.lock().unwrap().push(format!("{l} handles on one directory are alive at once"));
+                            }
+                            sp("O.holding");
+                            live.fetch_sub(1, Ordering::SeqCst);
+                            drop(n);
+                            obs.lock().unwrap().push(format!("O{t}:ok"));
+                        }
+                        Err(_) => obs.lock().unwrap().push(format!("O{t}:refused")),
+                    }));
+                }
+                Execution {
+                    threads,
+                    finish: Box::new(move || {
+                        let e = errs.lock().unwrap().clone();
+                        if !e.is_empty() {
+                            return Err(e.join("; "));
+                        }
+                        let n = reopen_retry(&dir).map_err(|e| format!("directory cannot be opened after the hand-over: {e}"))?;
+                        let a = n.read(ka()).map_err(|e| format!("{e:#}"))?.map(|v| v[0]);
+                        if a != Some(0) {
+                            return Err(format!("store content changed: ka=v{a:?}"));
+                        }
+                        let mut o = obs.lock().unwrap().clone();
+                        o.sort();
+                        Ok(o.join(" "))
+                    }),
+                }
+            }
             _ => panic!("unknown harness {name}"),
         }
     }
@@ -804,8 +878,8 @@ impl Engine for SchedX {
                 "schedx: closed harnesses of 2–3 real threads on two colliding keys (same value leaf, same merkle page), values stamped with the writer's version, rollback enabled: H1 reader∥blocking writer; H2 reader∥non-blocking writer (prepared changeset, retried blocking when handed back); H3/H3nb/H3ov two writers with changesets on one base (blocking / non-blocking / overlay) followed by reopen and rollback(1); H4 reader∥rollback; H5 reader∥writer∥writer; H6 one thread with two overlapping sessions∥writer. EVERY schedule of the visible points (API lock acquisitions with parking_lot's writer-preferring FIFO fairness modelled in the scheduler, the read-transaction wait, harness points between session operations) with ≤c preemptions is executed on a fresh store, c = 0,1,2 (thorough 3). Oracle per schedule: terminates (no enabled thread = deadlock); all reads and the proof of one session agree with one committed version and with session.prev_root(); exactly one of two competing changesets wins; final state, root and state after reopen are the winner's; rollback(1) restores the base. One case = one harness × one bound; evaluations = cases, transitions = scheduler steps, states = distinct schedules (trace digests).",
             ),
             "C20" => (
-                vec!["O1", "O2", "O2x3", "O3"],
-                "schedx: O1 two threads open one existing directory concurrently; O2 / O2x3 two / three threads open one non-existent directory (creation race) with different options; O3 a live handle ∥ a second opener that retries after the first is dropped. Every schedule of the open/create/lock/drop points (emptiness check, lock acquisition, creation of meta / hash table / value files, flock try and unlock, I/O-pool shutdown) with ≤c preemptions, c = 0,1,2 (thorough 3). Oracle: never two handles alive at once; a refused open returns an error and leaves every file byte-identical (holder idle); every successful opener's handle commits and reads back; whenever some opener succeeded, the directory afterwards opens and holds the last committed state (no racing opener may wipe or re-initialise it).",
+                vec!["O1", "O2", "O2x3", "O3", "O4"],
+                "schedx: O1 two threads open one existing directory concurrently; O2 / O2x3 two / three threads open one non-existent directory (creation race) with different options; O3 a live handle ∥ a second opener that retries after the first is dropped; O4 a holder that drops ∥ two openers (three-party hand-over). Every schedule of the open/create/lock/drop points (emptiness check, lock acquisition, creation of meta / hash table / value files, flock try and unlock, I/O-pool shutdown) with ≤c preemptions, c = 0,1,2 (thorough 3). Oracle: never two handles alive at once; a refused open returns an error and leaves every file byte-identical (holder idle); every successful opener's handle commits and reads back; whenever some opener succeeded, the directory afterwards opens and holds the last committed state (no racing opener may wipe or re-initialise it).",
             ),
             _ => panic!("schedx has no plan for {prop}"),
         };
